@@ -4,7 +4,7 @@ import fcntl, hashlib, os, subprocess, sys, time
 
 REPO = os.environ.get("VERIF_REPO", "/repo")
 VERIF = os.path.dirname(os.path.dirname(os.path.abspath(__file__)))
-BUILD = os.path.join(VERIF, ".build")
+BUILD = os.environ.get("VERIF_BUILD_DIR") or os.path.join(VERIF, ".build")   # background runs from a snapshot may reuse /verif/.build
 GUARD = "SOUFFLE_LANG_SOUFFLE_VERIF"
 
 CLANGXX = "clang++-14"
